@@ -572,6 +572,13 @@ def conc_eviction_extra(pid, tier, seed):
     run.add_mc("MemcEvict", "MC_Evict", workers=8)
     if not quick:
         run.add_mc("MemcEvict", "MC_Evict3", workers=12, timeout=3000)
+    # the concurrent model with the byte counter and the clock as a client: a lookup collecting an expired record, a store of
+    # another size and a tick, every interleaving: the counter is exact when everybody has finished; it is not if the
+    # collection accounts for the caller's earlier copy instead of the entry it removed
+    run.add_mc("MC_Conc", "MC_Conc_clock", workers=8)
+    r2 = tlc_mc("MC_Conc", "MC_Conc_collectcopy", workers=6, timeout=600)
+    if r2["ok"] or r2["violated"] != "AcctExact":
+        raise ToolError("MemcConc accounting the caller's copy in the expiry collection should violate AcctExact (got %s)" % r2["violated"])
     jobs = []
     for i in range(2 if quick else 8):
         jobs.append((["conc", "--kind", "C14", "--set", "eviction", "--count", 15 if quick else 60, "--seed", seed * 10 + i,
